@@ -36,7 +36,7 @@ def excPyName : Exc → String
   | .ret => "Ret" | .brk => "Brk" | .diverge => "Diverge"
 
 /-- `cwrite`: the `write("\n")` of `draw`'s own clean-up (`finally`) -/
-inductive Target | render | validate | write | resolve | cwrite
+inductive Target | render | validate | write | resolve | cwrite | finhook
 deriving DecidableEq, Repr
 
 inductive Owner | lib | caller
@@ -183,6 +183,7 @@ def target : Act → Option Target
   | .validate => some .validate
   | .resolvePad => some .resolve
   | .writeNl => some .cwrite
+  | .finCall _ _ => some .finhook
   | .write => some .write
   | _ => none
 
@@ -197,6 +198,9 @@ def inj : Target → Exc → Prop
   | .write, e => e = .boom ∨ e = .keyboardInterrupt
   | .resolve, e => e = .boom
   | .cwrite, e => e = .boom ∨ e = .keyboardInterrupt
+  -- a raising `_finalize_render_data_` is outside the property's fault sequences: the programs run it
+  -- (driver, correspondence, `finalize_once_even_if_raises`), the history theorems do not inject it
+  | .finhook, _ => False
 
 abbrev P := Prog Act Exc World
 
@@ -228,6 +232,11 @@ def initRender (owner : Owner) (iteration finalize checkSize allowScroll relPad 
 
 /-- `Renderable.render()` / `__str__` (no padding to resolve, no size validation) -/
 def renderP : P :=
+  initRender .lib Generated.initRenderIterationDefault Generated.initRenderFinalizeDefault
+    Generated.initRenderCheckSizeDefault Generated.initRenderAllowScrollDefault false fun d => .do (.render d)
+
+/-- `Renderable.__str__`: `self._init_render_(self._render_)[0].render_output` — every default -/
+def strP : P :=
   initRender .lib Generated.initRenderIterationDefault Generated.initRenderFinalizeDefault
     Generated.initRenderCheckSizeDefault Generated.initRenderAllowScrollDefault false fun d => .do (.render d)
 
@@ -370,9 +379,10 @@ def seekP (i : Nat) (n : Nat) : P :=
 /-- `set_render_size` & co.: cached frames become stale -/
 def bumpP (i : Nat) : P := ctlP i bumpCtl
 
-/-- `RenderIterator.__del__` (the caller dropped its last reference) -/
+/-- `RenderIterator.__del__` (the caller dropped its last reference): `try: self.close() except
+    AttributeError: pass`; whatever else comes out of a `__del__` is ignored by the interpreter -/
 def dropIterP (i : Nat) : P :=
-  .seq (.tryExcept (closeP i) (· == .attributeError) fun _ => .done) (.do (.markDropped i))
+  .seq (.tryExcept (closeP i) (fun _ => true) fun _ => .done) (.do (.markDropped i))
 
 /-! ## `Renderable._animate_` and `draw` -/
 
@@ -437,6 +447,8 @@ def drawP (animate checkSize : Bool) (loops : Int) (cache : CacheArg) (bound : N
 
 inductive Op
   | render
+  /-- `str(renderable)` -/
+  | str
   /-- a subclass operation built on `_init_render_` -/
   | initRender (iteration finalize checkSize allowScroll relPad : Bool)
   | draw (animate checkSize : Bool) (loops : Int) (cache : CacheArg) (bound : Nat)
@@ -476,6 +488,7 @@ def valid (w : World) : Op → Bool
 
 def opProg : Op → P
   | .render => renderP
+  | .str => strP
   | .initRender it fin cs asc rp => initRenderOpP it fin cs asc rp
   | .draw a cs l c b => drawP a cs l c b
   | .iterNew l c => iterNewP l c
